@@ -57,6 +57,7 @@ fn main() {
             "c05" => c05::child_observe(input),
             "c06" => c06::child_observe(input),
             "c06load" => c06::child_load(input),
+            "c06price" => c06::child_price(input),
             "c14" => c14::child_observe(input),
             _ => "{\"harness_error\":\"unknown mode\"}".to_string(),
         });
